@@ -179,6 +179,18 @@ theorem eval_lt_ints {s : Store} {w : World} {sp : Span} {t1 t2 : TId} {l1 l2 : 
     List.map_nil, Num.ofVal?, retV, C11.lt_int]
   exact .ret _ _ _ _
 
+/-- ㅈㄷ on a delayed list: the list is demanded — not its elements — and its number of elements returned -/
+theorem eval_len_list {s : Store} {w : World} {sp : Span} {t1 : TId} {l1 : Option Int} {xs : List Arg}
+    {h1 : Nat} {s1 : Store} (f1 : Forces s w t1 (.list xs) h1 s1) (h : Nat) (hh1 : h1 ≤ h) :
+    Eval s w (.comp ((bLen sp [.thunk t1 l1]).bind (fun a => .ret (Res.arg a)))) h
+      (.ok (.arg (.strict (.int xs.length)))) s1 w := by
+  simp only [bLen, matchArguments, checkArity, forceAll, forceArg, List.length_cons, List.length_nil, List.contains_cons,
+    List.contains_nil, Bind.bind, Comp.bind, pure]
+  refine f1 h hh1 _ _ _ _ _ ?_
+  simp only [Comp.bind, checkType, Val.isSequence, Val.isList, List.all_cons, List.all_nil, Bool.and_true, Bool.true_or,
+    Bool.or_true, if_true, retV, seqLen]
+  exact .ret _ _ _ _
+
 theorem eval_true (s : Store) (w : World) (sp : Span) (h : Nat) :
     Eval s w (.comp ((bTrue sp []).bind (fun a => .ret (Res.arg a)))) h (.ok (.arg (.strict (.bool true)))) s w := by
   simp only [bTrue, checkArity, retV, List.length_nil, List.contains_cons, List.contains_nil, Bind.bind, Comp.bind]
